@@ -72,8 +72,10 @@ ASSUMPTIONS = [
 
 # ---- input classes of known findings (generator / oracle keep away unless switched on
 # with VERIF_C05_INCLUDE=a,b or case["assume"])
-#   rec_nolit       two record types that differ in one field type meet through variables
-#                   only (no record literal involved): accepted by /repo
+#   rec_field       two record types with the same fields that differ in the type of one
+#                   field meet (through variables, or a variable and a literal written in
+#                   another rule): accepted by /repo for some rule orders, always when
+#                   no record literal is involved
 #   rec_arg_lit     record literal lacking a field, written directly as call / head
 #                   argument of a position typed by an earlier signature: accepted, and
 #                   rejected when the rules come in the other order
@@ -82,7 +84,7 @@ ASSUMPTIONS = [
 #                   different types: rejected depending on conjunct order
 #   colnames        positional field N spelled `colN:` in some heads / calls and not in
 #                   others: rejected ("inconsistent rules" / "does not have argument")
-KNOWN_CLASSES = ('rec_nolit', 'rec_arg_lit', 'neq', 'sibling_locals', 'colnames')
+KNOWN_CLASSES = ('rec_field', 'rec_arg_lit', 'neq', 'sibling_locals', 'colnames')
 INCLUDE = set(x for x in os.environ.get('VERIF_C05_INCLUDE', '').split(',') if x)
 
 OPTS = dict(p_colnames=0.0, p_neg=0.25, p_agg=0.35, p_distinct=0.4, p_null_fact=0.0,
